@@ -100,6 +100,37 @@ def NDArray.append (a : NDArray V) (cnt : Idx) (axis : Nat) (vals : List V) : Ex
   | .error e => .error e
   | .ok a' => a'.write cnt off vals
 
+/-- element-wise maximum of two shapes of the same rank -/
+def maxIdx (a b : Idx) : Idx := List.zipWith max a b
+
+/-- `DataSet::setData(const T &value)` — the whole-array write that also SETS THE EXTENT (after fix 17a5091): grow to cover the old
+    and the new shape, write, and only then cut back to the new shape; a write that HDF5 refuses (`accepts = false`: the element
+    classes do not convert, e.g. numbers into a string array) restores the old extent.  Returns the array as it is afterwards
+    together with the answer, so that "refused and left a trace" is expressible. -/
+def NDArray.setWhole (a : NDArray V) (shape : Idx) (vals : List V) (accepts : Bool) : NDArray V × Except Err Unit :=
+  if shape.length != a.shape.length then (a, .error .invalidRank) else      -- dataExtent(shape) refuses another rank
+  match a.setExtent (maxIdx shape a.shape) with
+  | .error e => (a, .error e)
+  | .ok b =>
+    if !accepts then
+      (match b.setExtent a.shape with
+       | .ok c => (c, .error .h5Error)
+       | .error e => (b, .error e))
+    else
+      match b.write shape (zeros shape.length) vals with
+      | .error e => (match b.setExtent a.shape with | .ok c => (c, .error e) | .error _ => (b, .error e))
+      | .ok c => (match c.setExtent shape with | .ok d => (d, .ok ()) | .error e => (c, .error e))
+
+/-- the same entry point as it was on the pinned tree: the extent first, the write afterwards (D40) -/
+def NDArray.setWholeNaive (a : NDArray V) (shape : Idx) (vals : List V) (accepts : Bool) : NDArray V × Except Err Unit :=
+  match a.setExtent shape with
+  | .error e => (a, .error e)
+  | .ok b =>
+    if !accepts then (b, .error .h5Error) else
+    match b.write shape (zeros shape.length) vals with
+    | .error e => (b, .error e)
+    | .ok c => (c, .ok ())
+
 /-! ### DataView -/
 
 structure View where
